@@ -19,8 +19,9 @@ CLAIM = dict(
     text="Theorems in DarsiaProps.C20 over tables re-tabulated from the running helpers on every run (G1): agreement of "
     "to_matrix/to_cartesian with interpret_indexing, there-and-back, integer = named axis, coherence and bijectivity of "
     "interpret_indexing, layout helper = coordinate-system placement (all shapes), layout helpers mutually inverse (all shapes, "
-    "all indices), slice/reduce by name = by index. Exhaustive over the finite vocabulary; random arrays tie the layout index "
-    "maps and slicing/reduction to the model.",
+    "all indices), slice/reduce by name = by index. Exhaustive over the finite vocabulary; random arrays (incl. trailing payload axes) tie the "
+    "layout index maps and slicing/reduction to the model. Observed by the oracle only (no theorem): name = index agreement along call "
+    "sequences that move the origin in place, and voxel placement of scalar/vector/tensor data in the VTK export (pyevtk stubbed).",
     note="numpy swapaxes/flip semantics (tied by the layout correspondence); tabulation is exhaustive over dims 1-3 x axes x indexings.",
     technique="Lean 4 proof (decide over tables regenerated from the code + general index-map lemmas) + differential correspondence",
 )
@@ -75,7 +76,8 @@ def make_image(d, dim, shape=None, series=False, scalar=True):
     shape = tuple(shape or BASE_SHAPE[:dim])
     full = shape + ((4,) if series else ()) + (() if scalar else (2,))
     arr = np.arange(int(np.prod(full)), dtype=float).reshape(full)
-    kw = dict(space_dim=dim, dimensions=[float(s) * 0.5 for s in shape], scalar=scalar, series=series)
+    kw = dict(space_dim=dim, dimensions=[float(s) * 0.5 * (a + 1) for a, s in enumerate(shape)], scalar=scalar, series=series,
+              origin=[10.0, 20.0, 40.0][:dim])
     if series:
         kw["time"] = list(range(4))
     return d.Image(arr, **kw)
@@ -231,9 +233,24 @@ def oracle(ctx, d, t):
                 ctx.fail(f"C20:to_cartesian_indexing(int,{M})!=name", "integer axis form differs from named form", {"axis": m, "dim": dim})
         # layouts: random arrays
         shapes = [BASE_SHAPE[:dim]] + [tuple(ctx.rng.randint(1, 6) for _ in range(dim)) for _ in range(ctx.pick(6, 60))]
-        for shape in shapes:
+        for nshape, shape in enumerate(shapes):
             ctx.count(("layout", dim, shape), nontrivial=int(np.prod(shape)) > 1)
             arr = np.arange(int(np.prod(shape)), dtype=float).reshape(shape) + 0.5
+            # the helpers take `dim`: arrays may carry trailing payload axes (vector / colour / series); each payload
+            # component must be re-indexed like a scalar array and the payload axes must stay trailing
+            for trailing in ([(3,), (2, 4)][nshape % 2],) if nshape % 3 else ():
+                big = np.arange(int(np.prod(shape + trailing)), dtype=float).reshape(shape + trailing)
+                cbig = m2c(d, dim)(big)
+                comp = tuple(0 for _ in trailing)
+                want = m2c(d, dim)(big[(slice(None),) * dim + comp])
+                okb = (not isinstance(cbig, Raised) and not isinstance(want, Raised) and cbig.shape == want.shape + trailing
+                       and np.array_equal(cbig[(slice(None),) * dim + comp], want))
+                if okb:
+                    bb = c2m(d, dim)(cbig)
+                    okb = not isinstance(bb, Raised) and bb.shape == big.shape and np.array_equal(bb, big)
+                if not okb:
+                    ctx.fail(f"C20:layout-helpers(dim={dim}):payload-axes", "layout helpers mishandle arrays with trailing payload axes (not component-wise / not mutually inverse)",
+                             {"shape": list(shape), "trailing": list(trailing), "dim": dim})
             cimg = m2c(d, dim)(arr)
             if isinstance(cimg, Raised):
                 ctx.fail(f"C20:matrixToCartesianIndexing(dim={dim}):raises", str(cimg), {"shape": shape})
@@ -280,6 +297,13 @@ def oracle(ctx, d, t):
                         ctx.fail(f"C20:Image.slice(name,dim={dim}):raises", f"Image.slice(cut,'{a}') raises {by_name}", {"shape": shape, "axis": a, "cut": float(coord['xyz'.find(a)])})
                     elif by_name.img.shape != by_idx.img.shape or not np.array_equal(by_name.img, by_idx.img) or not np.allclose(by_name.dimensions, by_idx.dimensions):
                         ctx.fail(f"C20:Image.slice(name!=index,dim={dim},axis={a})", "slice by Cartesian name differs from slice by matrix index", {"shape": shape, "axis": a, "voxel": v})
+                    rn_ = call(d.AxisReduction, a, dim)
+                    ri_ = call(d.AxisReduction, p, dim)
+                    if isinstance(rn_, Raised) or isinstance(ri_, Raised) or (rn_.index, rn_.axis) != (ri_.index, ri_.axis) or rn_.index != p or rn_.axis != "xyz".find(a):
+                        ctx.fail(f"C20:AxisReduction(name!=index,dim={dim},axis={a})", "AxisReduction resolves the axis differently by name and by matrix index",
+                                 {"dim": dim, "axis": a, "matrix_index": p,
+                                  "by_name": repr(rn_) if isinstance(rn_, Raised) else [rn_.index, rn_.axis],
+                                  "by_index": repr(ri_) if isinstance(ri_, Raised) else [ri_.index, ri_.axis]})
                     for mode in ("sum", "average"):
                         rn = call(d.reduce_axis, img, a, mode=mode)
                         ri = call(d.reduce_axis, img, p, mode=mode)
@@ -291,6 +315,142 @@ def oracle(ctx, d, t):
                             ref = (np.sum if mode == "sum" else np.mean)(img.img, axis=p)
                             if not np.allclose(rn.img, ref):
                                 ctx.fail(f"C20:reduce_axis(wrong-axis,dim={dim},axis={a})", "reduction along named axis is not along the matrix axis given by interpret_indexing", {"shape": shape, "axis": a})
+
+
+
+def cell_centre_coordinate(t, dim, origin, dimensions, shape, vox):
+    """Coordinate of the centre of voxel `vox`, computed from the tabulated axis table and the image's CURRENT
+    origin/dimensions only (independent of any CoordinateSystem object the image may hold)."""
+    M = {1: "i", 2: "ij", 3: "ijk"}[dim]
+    out = []
+    for c, a in enumerate("xyz"[:dim]):
+        p, r = t["interpret"][(a, M)]
+        h = dimensions[p] / shape[p]
+        out.append(origin[c] + (-1 if r else 1) * (vox[p] + 0.5) * h)
+    return out
+
+
+def oracle_sequences(ctx, d, t):
+    """Addressing an axis by name must keep agreeing with addressing it by index along a call sequence on ONE image
+    object whose placement (origin) changes in place between the calls."""
+    for dim in (2, 3):
+        C, M = "xyz"[:dim], {2: "ij", 3: "ijk"}[dim]
+        for trial in range(ctx.pick(2, 10)):
+            shape = BASE_SHAPE[:dim] if trial == 0 else tuple(ctx.rng.randint(2, 6) for _ in range(dim))
+            img = make_image(d, dim, shape, series=trial % 2 == 1)
+            changers = [
+                ("reset_origin", lambda im: im.reset_origin()),
+                ("update_metadata(origin)", lambda im: im.update_metadata(origin=[-3.0, 5.5, 1.25][:dim])),
+                ("origin=", lambda im: setattr(im, "origin", d.make_coordinate([7.0, -2.0, 0.5][:dim]))),
+            ]
+            # step 1: touch everything that might cache placement
+            call(lambda: (img.coordinatesystem, img.opposite_corner, img.slice(float(img.origin[0]) + 0.1, "x")))
+            for cname, change in changers:
+                r = call(change, img)
+                if isinstance(r, Raised):
+                    continue  # this way of changing the origin is not offered by the code under test
+                origin = [float(x) for x in np.asarray(img.origin).ravel()]
+                dims = [float(x) for x in img.dimensions]
+                for a in C:
+                    ctx.count(("slice-sequence", dim, shape, cname, a))
+                    p, rev = t["interpret"][(a, M)]
+                    if isinstance(t["interpret"][(a, M)], Raised):
+                        continue
+                    v = ctx.rng.randrange(shape[p])
+                    vox = [0] * dim
+                    vox[p] = v
+                    coord = cell_centre_coordinate(t, dim, origin, dims, shape, vox)["xyz".find(a)]
+                    by_name = call(img.slice, float(coord), a)
+                    by_idx = call(img.slice, v, p)
+                    if isinstance(by_idx, Raised):
+                        continue
+                    if isinstance(by_name, Raised) or by_name.img.shape != by_idx.img.shape or not np.array_equal(by_name.img, by_idx.img):
+                        ctx.fail(f"C20:Image.slice(name!=index,after:{cname},dim={dim})",
+                                 f"after changing the origin in place ({cname}) slicing at the centre of voxel {v} along '{a}' no longer selects matrix index {v} of axis {p}",
+                                 {"dim": dim, "shape": list(shape), "sequence": ["touch coordinatesystem/opposite_corner/slice", cname, f"slice({coord},'{a}') vs slice({v},{p})"],
+                                  "origin": origin, "by_name": repr(by_name) if isinstance(by_name, Raised) else "different data"})
+                        break
+
+
+class _VtkStub:
+    """Records what plotting.to_vtk hands to pyevtk.hl.gridToVTK (pyevtk itself is an optional dependency)."""
+
+    def __enter__(self):
+        import sys
+        import types
+
+        self.rec = {}
+        self.saved = {k: sys.modules.get(k) for k in ("pyevtk", "pyevtk.hl")}
+        m, hl = types.ModuleType("pyevtk"), types.ModuleType("pyevtk.hl")
+
+        def gridToVTK(path, x, y, z, cellData=None, **kw):
+            self.rec.update(x=np.asarray(x), y=np.asarray(y), z=np.asarray(z), cellData=cellData)
+
+        hl.gridToVTK = gridToVTK
+        m.hl = hl
+        sys.modules["pyevtk"], sys.modules["pyevtk.hl"] = m, hl
+        return self
+
+    def __exit__(self, *a):
+        import sys
+
+        for k, v in self.saved.items():
+            if v is None:
+                sys.modules.pop(k, None)
+            else:
+                sys.modules[k] = v
+
+
+def oracle_vtk(ctx, d, t):
+    """The Cartesian-layout export places every voxel (scalar data and every vector / tensor component) in the grid
+    cell in which the coordinate system locates it."""
+    import tempfile
+
+    fmt = getattr(d, "Format", None)
+    for dim in (1, 2, 3):
+        for trial in range(ctx.pick(1, 4)):
+            shape = tuple(BASE_SHAPE[:dim]) if trial == 0 else tuple(ctx.rng.randint(1, 5) for _ in range(dim))
+            img = make_image(d, dim, shape)
+            ncomp = {1: 1, 2: 2, 3: 3}[dim]
+            rs = np.random.RandomState(ctx.rng.randrange(2**31))
+            vec = rs.randint(1, 1000, size=shape + (ncomp,)).astype(float) + rs.rand(*shape, ncomp)
+            data = [("scalar", img, getattr(fmt, "SCALAR", None))]
+            if fmt is not None:
+                data += [("vector", vec, fmt.VECTOR), ("tensor", vec + 0.25, fmt.TENSOR)]
+            with tempfile.TemporaryDirectory(prefix="darsia-verif-vtk-") as tmp, _VtkStub() as stub:
+                r = call(d.plotting.to_vtk, tmp + "/out", data)
+            ctx.count(("vtk", dim, shape))
+            if isinstance(r, Raised):
+                ctx.fail(f"C20:to_vtk(dim={dim}):raises", f"plotting.to_vtk raises {r} for scalar+vector+tensor data", {"dim": dim, "shape": list(shape)})
+                continue
+            if not stub.rec:
+                continue  # export not reached (should not happen with the stub)
+            axes = [stub.rec["x"], stub.rec["y"], stub.rec["z"]]
+            cs = img.coordinatesystem
+            for name, arr, _ in data:
+                exported = stub.rec["cellData"].get(name)
+                src = arr.img if isinstance(arr, d.Image) else arr
+                comps = [exported] if not isinstance(exported, (tuple, list)) else list(exported)
+                srcs = [src] if src.ndim == dim else [src[..., k] for k in range(src.shape[-1])]
+                for ci, e in enumerate(comps):
+                    e = np.asarray(e)
+                    if not np.any(e):
+                        continue  # zero padding of missing components
+                    ok_any = False
+                    for s_ in srcs:
+                        for sign in (1.0, -1.0):
+                            good = True
+                            for cell in np.ndindex(*e.shape):
+                                centre = [0.5 * (axes[k][cell[k]] + axes[k][cell[k] + 1]) for k in range(dim)]
+                                v = tuple(int(x) for x in np.asarray(cs.voxel(np.array(centre))).ravel())
+                                if any(not 0 <= v[k] < shape[k] for k in range(dim)) or e[cell] != sign * s_[v]:
+                                    good = False
+                                    break
+                            ok_any = ok_any or good
+                    if not ok_any:
+                        ctx.fail(f"C20:to_vtk(dim={dim},{name}):placement",
+                                 f"exported {name} component {ci} is not located in the grid cells in which the coordinate system places the voxels",
+                                 {"dim": dim, "shape": list(shape), "data": name, "component": ci})
 
 
 def layout_correspondence(ctx, d, t):
@@ -331,6 +491,8 @@ def run(ctx):
     ctx.prove("C20")
     layout_correspondence(ctx, d, t)
     oracle(ctx, d, t)
+    oracle_sequences(ctx, d, t)
+    oracle_vtk(ctx, d, t)
     ctx.cov["exhaustive"] = True
     ctx.cov["rule"] = ("exhaustive over dimensions 1-3 x all axes x both directions (finite tables, G1 tabulation of the real helpers); "
                        "random shapes for layout helpers / slicing / reduction; distinct = distinct (clause, dim, axis, shape)")
